@@ -95,6 +95,9 @@ type Resp struct {
 	Kind   string `json:"kind"` // none | json | jarray | text | bytes
 	Body   []F    `json:"body,omitempty"`
 	Text   BS     `json:"text,omitempty"`
+	// Dest: what the caller's reader hands to the consumer for a bytes body: "" an io.Writer
+	// (what generated readers pass), "slice" a *[]byte, "string" a *string.
+	Dest string `json:"dest,omitempty"`
 }
 
 // Case is one round trip: an API description with one operation, the values the
@@ -824,11 +827,26 @@ func execute(s *server, cl *clientSide, c *Case) (res result, herr error) {
 			}
 			sn.body = v
 		case "bytes":
-			var v bytes.Buffer
-			if err := cons.Consume(body, &v); err != nil {
-				sn.bodyErr = err.Error()
+			switch c.Resp.Dest {
+			case "slice":
+				var v []byte
+				if err := cons.Consume(body, &v); err != nil {
+					sn.bodyErr = err.Error()
+				}
+				sn.body = v
+			case "string":
+				var v string
+				if err := cons.Consume(body, &v); err != nil {
+					sn.bodyErr = err.Error()
+				}
+				sn.body = v
+			default:
+				var v bytes.Buffer
+				if err := cons.Consume(body, &v); err != nil {
+					sn.bodyErr = err.Error()
+				}
+				sn.body = v.Bytes()
 			}
-			sn.body = v.Bytes()
 		}
 		return nil, nil
 	})
